@@ -11,7 +11,6 @@ use ckc_rs::cards::two::Two;
 use ckc_rs::cards::{HandValidator, Permutator};
 use proptest::prelude::*;
 use serde_json::{json, Value};
-use std::cell::{Cell, RefCell};
 
 #[derive(Clone, Copy, Debug)]
 enum C {
@@ -290,44 +289,31 @@ pub fn run(run: &mut Run) -> PResult {
     }
     // R: histories
     {
-        let cnt = Cell::new(0u64);
-        let nt = Cell::new(0u64);
-        let frozen = Cell::new(false);
-        let distinct = RefCell::new(engine::Distinct::new());
-        let sizes = RefCell::new([0u64; 8]);
-        let cases = if thorough { 2_000_000 } else { 200_000 };
-        let strat = (2usize..=7, proptest::collection::vec(op_strategy(), 1..40));
-        let res = pt::run(run.seed, 0xC19, cases, &strat, |(n, ops)| {
-            if !frozen.get() {
-                cnt.set(cnt.get() + 1);
-                sizes.borrow_mut()[n] += 1;
-                let mut h = mix(n as u64);
-                let mut has_set = false;
-                for o in &ops {
-                    h = mix(h ^ match o {
-                        Op::FromArray(w) => engine::hash_words(w) ^ 1,
-                        Op::Parts(w, v) => engine::hash_words(w) ^ 2 ^ ((*v as u64) << 40),
-                        Op::Set(s, w) => {
-                            has_set = true;
-                            ((*s as u64) << 32 | *w as u64) ^ 3
-                        }
-                        Op::Read => 4,
-                        Op::Select(p) => p.iter().fold(5u64, |m, x| m * 8 + *x as u64),
-                    });
-                }
-                if distinct.borrow_mut().insert(h) && has_set {
-                    nt.set(nt.get() + 1);
-                }
+        let st = engine::RStats::new();
+        let cases = if thorough { 8_000_000 } else { 1_000_000 };
+        let make = || (2usize..=7, proptest::collection::vec(op_strategy(), 1..40));
+        let res = pt::run_sharded(run.seed, 0xC19, cases, &make, &|(n, ops): (usize, Vec<Op>)| {
+            let mut h = mix(n as u64);
+            let mut has_set = false;
+            for o in &ops {
+                h = mix(h ^ match o {
+                    Op::FromArray(w) => engine::hash_words(w) ^ 1,
+                    Op::Parts(w, v) => engine::hash_words(w) ^ 2 ^ ((*v as u64) << 40),
+                    Op::Set(s, w) => {
+                        has_set = true;
+                        ((*s as u64) << 32 | *w as u64) ^ 3
+                    }
+                    Op::Read => 4,
+                    Op::Select(p) => p.iter().fold(5u64, |m, x| m * 8 + *x as u64),
+                });
             }
+            st.note(h, has_set, Some(&format!("histories on {}", TN[n])), || json!({"size": n, "ops": ops_json(&ops)}));
             history_clause(n, &ops).map_err(|e| {
-                frozen.set(true);
+                st.freeze();
                 e
             })
         });
-        run.generator("proptest histories of constructor / setter / selection calls", "proptest (stateful, model-based)", None, cnt.get(), nt.get(), "size 2..7, 1..40 operations, a full read-back after every step");
-        for i in 2..8 {
-            run.class(&format!("histories on {}", TN[i]), sizes.borrow()[i]);
-        }
+        st.flush(run, "proptest histories of constructor / setter / selection calls", "proptest (stateful, model-based; 8 shards)", None, "size 2..7, 1..40 operations, a full read-back after every step");
         if let Err(f) = res {
             let (n, ops) = f.value;
             let m = history_clause(n, &ops).err().unwrap_or_default();
